@@ -265,7 +265,7 @@ def check_c09(tier, seed):
     vlib.write_evidence("C09", tier, seed, "exploration", cov, wall, nviol,
                         ["the reference model is the library itself run once in a fresh process: C09 is about independence from history, not about the verdict being right",
                          "error texts are not compared (they may contain generated names); outcomes are (error?, panic?, report bytes)",
-                         "a step hit by an injected stage failure may fail, but may not return a report that differs from the reference; every later step is held to full equality"])
+                         "a step hit by an injected stage failure is not judged itself (code may legitimately tolerate a failed sub-step); every later step is held to full equality"])
     return 1 if nviol else 0
 
 
